@@ -836,6 +836,11 @@ class DatasetDimsSetter(Contract):
         for state, new in (("a(x),b(x,y)", ("y", "x")), ("a(x,y)", ("y", "x")), ("a(x),b(x,y)", ("y", "w")), ("a(x),b(x,y)", ("w", "x")),
                            ("a(x),b(x,y),c(y)", ("y", "x")), ("a(x),b(x,y)", ("x", "y")), ("a(x),b(x,y)", ("u", "v"))):
             yield {"name": "%s|dims=%s" % (state, ",".join(new)), "state": state, "new": list(new)}
+        # names that are NOT distinct must be rejected (the dataset stays as it was): no dataset with two dimensions of one name
+        for state, new in (("a(x),b(x,y)", ("x", "x")), ("a(x),b(x,y)", ("u", "u")), ("a(x,y)", ("y", "y"))):
+            yield {"name": "%s|dims=%s|rejected" % (state, ",".join(new)), "state": state, "new": list(new), "reject": True}
+        for state, (axis, name) in (("a(x),b(x,y)", ("x", "y")), ("a(x),b(x,y)", (1, "x"))):
+            yield {"name": "%s|set_axis(name=%s,axis=%s)|rejected" % (state, name, axis), "state": state, "new": None, "reject": True, "set_axis": (axis, name)}
 
     bound_names = ("ds.x.n", "ds.y.n")
 
@@ -845,11 +850,28 @@ class DatasetDimsSetter(Contract):
                 "var_axes": {k: list(dict.__getitem__(ds, k).axes) for k in dict.keys(ds)}}
 
     def call(self, fn, env):
-        env["ds"].dims = tuple(env["case"]["new"])
+        case = env["case"]
+        if case.get("set_axis"):
+            env["ds"].set_axis(name=case["set_axis"][1], axis=case["set_axis"][0])
+        else:
+            env["ds"].dims = tuple(case["new"])
         return env["ds"]
+
+    def raises(self, S, case, env):
+        return {ValueError: bool(case.get("reject"))}
+
+    def post_exc(self, S, case, env, exc):
+        for c in ds_inv(S, env["ds"]):
+            yield c
+        for c in unchanged_ds(S, env["ds"], env["snap"]):
+            yield c
 
     def post(self, S, case, env, result):
         ds, snap, new = env["ds"], env["snap"], case["new"]
+        for c in ds_inv(S, ds):
+            yield c
+        if case.get("reject"):
+            return              # (that nothing was raised is reported by the raises clause)
         yield "dimensions-are-exactly-the-assigned-names", [ax.name for ax in ds.axes] == list(new)
         yield "axis-objects-keep-their-position", len(ds.axes) == len(snap["axes"]) and all(a is b for a, b in zip(ds.axes, snap["axes"]))
         for i, ax in enumerate(snap["axes"]):
